@@ -158,8 +158,8 @@ def drv_required(c, ctx, col):
         bad("fitted-required-variables-raises", "ModelSpec.required_variables",
             {"error": "%s: %s" % (type(e).__name__, str(e)[:160]), "repro": base_repro + "model_matrix(%r, full).model_spec.required_variables" % text})
 
+    col.interesting()
     for phase, R, mat, rexpr, mexpr in phases:
-        col.interesting()
         info = {"reported": R, "repro": base_repro + "print(%s)" % rexpr}
         present = [r for r in R if r in full.columns]
         not_cols = [r for r in R if r not in full.columns]
